@@ -6,6 +6,7 @@ stops compiling and the check reports a broken obligation.
 import Pandora.Gen.HclYaml
 import Pandora.Model.C16
 import Pandora.Model.C16Locals
+import Pandora.Model.C16Src
 
 namespace Pandora.Bridge.HclYaml
 open Pandora.Go Pandora.Model.C16
@@ -94,12 +95,19 @@ theorem locals_flow :
 def conversionFns : List String :=
   ["ParseHCLFile", "decodeLocals", "decodeLocalBlock", "ConvertHCLToAmmo", "DecodeMap", "ParseAmmoConfig"]
 
-/-- one row of the regenerated error flow is fine: the error / diagnostics value is tested by the next statement and
-returned; the one exception is `PartialContent` in `ParseHCLFile`, whose diagnostics are (by the comment in the source)
-expected to carry errors about functions and self-references and are returned only when no content came back -/
-def errRowOK (r : String × String × String) : Bool :=
-  r.2.2 == "returned" ||
-  (r.1 == "ParseHCLFile" && r.2.1 == "(hcl.Body).PartialContent" && r.2.2 == "returned-on-other-condition")
+/-- are the diagnostics of `f.Body.PartialContent(localsSchema())` tested and returned by `ParseHCLFile`?  (They carry
+the errors about the `locals` blocks themselves — a block with a label is taken out of the body and handed to nobody.)
+Was `false` for the source as it was found (finding `dropped-locals`, repaired by fixes/C16-labelled-locals.diff) -/
+def schemaDiagsChecked : Bool :=
+  Gen.HclYaml.errFlow.contains ("ParseHCLFile", "(hcl.Body).PartialContent", "returned")
+
+/-- one row of the regenerated error flow is fine: the error / diagnostics value is tested by the next statement (alone
+or as one disjunct of an `||` chain) and returned — no exception -/
+def errRowOK (r : String × String × String) : Bool := r.2.2 == "returned"
+
+/-- `ParseHCLFile` returns the diagnostics of `PartialContent`: a `locals` block that hcl drops with an error refuses
+the file (model: `splitLocals true`) -/
+theorem schema_diags_checked : schemaDiagsChecked = true := by decide
 
 /-- no failure on the way is swallowed: a `locals` block that does not evaluate (`decodeLocalBlock` ← `Expr.Value`,
 `JustAttributes`), a body that does not decode (`gohcl.DecodeBody`), a marshal / unmarshal / decode step that fails —
@@ -129,5 +137,48 @@ theorem readers_nil_blind : Gen.HclYaml.readerNilTests = [] := by decide
 theorem parseHcl_shape :
     "f.Body.PartialContent" ∈ Gen.HclYaml.parseHclCalls ∧ "decodeLocals" ∈ Gen.HclYaml.parseHclCalls ∧
     "gohcl.DecodeBody" ∈ Gen.HclYaml.parseHclCalls := by decide
+
+/-! ### round 3: the file name, package-level state, the providers -/
+
+/-- the calls the name tested by the extension switch may go through on its way from the `fileName` parameter -/
+def subjectStepOK (c : String) : Bool :=
+  c == "strings.ToLower" || c == "(fs.FileInfo).Name" || c == "(afero.File).Stat" || c == "(afero.Fs).Open" ||
+  c == "filepath.Base" || c == "path.Base" || c == "param:fileName"
+
+/-- is the name lower-cased before the tests? -/
+def nameLowered : Bool := Gen.HclYaml.extSubject.contains "strings.ToLower"
+
+/-- what is done to every character of the name before the tests (ASCII reading of `unicode.ToLower`) -/
+def subjectLc : Char → Char := if nameLowered then asciiLower else id
+
+/-- every case of the switch tests one and the same value (gen refuses anything else), and that value is the file name
+handed to `ReadAmmoConfig` — at most lower-cased and reduced to its base name, nothing else -/
+theorem ext_subject :
+    Gen.HclYaml.extSubject.all subjectStepOK = true ∧ Gen.HclYaml.extSubject.getLast? = some "param:fileName" := by
+  decide
+
+/-- both extensions reach their front-end whatever stands in front of them -/
+theorem ext_selects :
+    extSelects Gen.HclYaml.extCases ".hcl" "ParseHCLFile+ConvertHCLToAmmo" = true ∧
+    extSelects Gen.HclYaml.extCases ".yaml" "ParseAmmoConfig" = true := by decide
+
+/-- the front-ends keep nothing from one file to the next: the functions of scenario/config reachable from
+`ReadAmmoConfig` only READ package-level variables (no cache, no pool, no hoisted parser or evaluation context: a
+`write`, a method call on such a variable, its address or handing a reference to it on would be state) -/
+theorem stateless : (Gen.HclYaml.pkgStateUses.all fun u => u.2.2 == "read") = true := by decide
+
+def flowOf (tag : String) : List (String × Nat × String) :=
+  (Gen.HclYaml.providerFlow.filter fun r => r.1 == tag).map fun r =>
+    (if (tag ++ ".decodeAmmo") == r.2.1 then "decodeAmmo" else r.2.1, r.2.2.1, r.2.2.2)
+
+def flowExpected : List (String × Nat × String) :=
+  [("ReadAmmoConfig", 1, "file"), ("ExtractVariableStorage", 0, "cfg"), ("decodeAmmo", 0, "cfg")]
+
+def sameSet (a b : List (String × Nat × String)) : Bool := a.all b.contains && b.all a.contains
+
+/-- both providers hand the file name to `ReadAmmoConfig` and to nothing else, and build the variable storage and the
+ammo from its result and nothing else: the syntax of the file can reach the ammo only through the `AmmoConfig` -/
+theorem provider_flow : sameSet (flowOf "http") flowExpected = true ∧ sameSet (flowOf "grpc") flowExpected = true := by
+  decide
 
 end Pandora.Bridge.HclYaml
